@@ -665,6 +665,9 @@ def _contains(token: Token, left: object, right: object) -> bool:
     if not is_truthy(left) or not is_truthy(right):
         return False
     if isinstance(left, str):
+        if isinstance(right, bool):
+            # Liquid's "true", not Python's "True".
+            return str(right).lower() in left
         return str(right) in left
     if isinstance(left, (list, tuple, dict, range)):
         # Liquid equality, not Python's. Remember 1 == True in Python, and that
